@@ -83,14 +83,14 @@ Random(i) ==
       nr == Pick(Sizes, d[1])
       S == [q \in 1..nr |-> IF q <= 4 THEN Backbone[q] ELSE Pick(Shapes, d[2 + q])]
       b == [q \in 1..nr |-> IF q <= 4 THEN Pick(BPalMain, d[10 + q]) ELSE Pick(BPalExtra, d[10 + q])]
-      ua == (d[20] % nr) + 1
-      ub2 == (d[21] % nr) + 1
-      sg == IF d[22] % 2 = 0 THEN 1 ELSE -1
-      coef == [q \in 1..nr |-> (IF q = ua THEN 1 ELSE 0) + (IF q = ub2 /\ ub2 # ua THEN sg ELSE 0)]
-      kindU == d[23] % 5
+      \* user rows over the two boundary reactions of the backbone, signs opposite to their stoichiometric
+      \* entry: the augmented matrix stays an incidence matrix (SxIntegral), so dimensions are exact
+      kindU == (d[23] \div 16) % 6
+      coef(c1, c4) == [q \in 1..nr |-> IF q = 1 THEN c1 ELSE IF q = 4 THEN c4 ELSE 0]
   IN Mk(<<"A", "B", "C">>, S, [q \in 1..nr |-> b[q][1]], [q \in 1..nr |-> b[q][2]],
-        CASE kindU = 0 -> <<UC(coef, 0, -1 - (d[24] % 2), 1 + (d[25] % 3))>>        \* two-sided inequality
-          [] kindU = 1 -> <<UC(coef, -1, 0, 0)>>                                    \* coef.v = z
+        CASE kindU = 0 -> <<UC(coef(-1, 1), 0, -1 - (d[24] % 2), 1 + (d[25] % 3))>>   \* lo <= v4 - v1 <= hi
+          [] kindU = 1 -> <<UC(coef(0, 1), -1, 0, 0)>>                                \* v4 = z
+          [] kindU = 2 -> <<UC(coef(-1, 0), 0, -3 + (d[24] % 2), 1 - (d[25] % 3))>>   \* a bound on v1 as a row
           [] OTHER -> NoU,
         kindU = 1, IF kindU = 1 THEN <<-(d[26] % 3), 1 + (d[27] % 3)>> ELSE <<0, 0>>)
 
@@ -140,7 +140,7 @@ Cfg(i, q) ==
 CfgSeq(i) == [q \in 1..NCfg |-> Cfg(i, q)]
 \* the design run also visits these on every instance (so that no clause depends on the draws)
 PinnedCfgs == {
-  [method |-> "optgp", n |-> 11, thin |-> 1, seed |-> 7, nproj |-> 0, P |-> 3, fluxes |-> TRUE, via |-> "class"],
+  [method |-> "optgp", n |-> 17, thin |-> 1, seed |-> 7, nproj |-> 0, P |-> 3, fluxes |-> TRUE, via |-> "class"],
   [method |-> "optgp", n |-> 4, thin |-> 3, seed |-> 9, nproj |-> 1, P |-> 2, fluxes |-> FALSE, via |-> "class"],
   [method |-> "achr", n |-> 5, thin |-> 2, seed |-> 3, nproj |-> 5, P |-> 1, fluxes |-> FALSE, via |-> "class"],
   [method |-> "achr", n |-> 3, thin |-> 1, seed |-> 5, nproj |-> 0, P |-> 1, fluxes |-> TRUE, via |-> "function"]}
@@ -168,7 +168,7 @@ SampleRows(c, replica) ==
       chain(idx) == [t \in 1..m |-> ChainRow(IF Bug = "same_chain_seed" THEN seed ELSE seed + idx, t, c.fluxes)]
       all == Concat([q \in 1..P |-> chain(q - 1)], P) IN
   IF Bug = "no_roundup" THEN SubSeq(all, 1, MinOf(c.n, Len(all))) ELSE all
-Refuses == SxRefusalExpected(X, SxDim(Lat)) = "yes"
+Refuses == SxRefusalExpected(X, Lat, SxDim(Lat)) = "yes"
 \* validate() as documented, in the abstract: from the independent judgement of each letter
 AbsCode(v) ==
   LET l == SxLetterL(X, v) = "yes"
@@ -234,7 +234,7 @@ InvValidateLetters ==
                            /\ LetterAgrees(pcodes[i], "u", SxLetterU(X, ps[i]))
                            /\ LetterAgrees(pcodes[i], "e", SxLetterE(X, ps[i]))
 InvModelUnchanged == modelPost = ModelDigest(X)
-InvRefusal == phase = "refused" => SxRefusalExpected(X, SxDim(Lat)) # "no"
+InvRefusal == phase = "refused" => SxRefusalExpected(X, Lat, SxDim(Lat)) # "no"
 \* the independent check itself: complete on integer points (exactly the lattice is accepted)
 InvOracleExact ==
   (phase = "new" /\ NR(X.M) <= 4) =>
